@@ -35,7 +35,10 @@ def judgeC09 : P Verdict := do
   let td ← pTree
   let skl ← pNatList
   expect "|"
-  let some t := td.abs | return .skip "tree dump inconsistent"
+  -- the trees of this kind are built through the public API only; when the arena is not the image of a tree (a leaf
+  -- flag on a node with a child, a dangling link) `find_terminal` / `evaluate` (which trust the flags) and the region
+  -- iterators (which trust the links) cannot agree
+  let some t := td.abs | return .propfail "[C09] the arena the iterators walk is not a consistent tree (leaf flags / links): routing by evaluate/find_terminal and the reported regions disagree"
   let n := td.indim
   let sk : Nat → Nat := fun k => skl.getD k 0
   if t.size ≥ 5 then tag "nt"
@@ -82,6 +85,12 @@ def judgeC09 : P Verdict := do
   for _ in [0:npts] do
     let x ← pVec
     let r ← tok
+    -- where binary64 cannot decide a side (a hair off a hyperplane with inexact products) routing is rounding
+    if !(PT.faith t x).1 then
+      tag "float-undecided"
+      if r != "panic" && r != "none" then
+        let _ ← pNat; let _ ← pNatList
+      continue
     match r with
     | "panic" => return .propfail s!"[C09] find_terminal panicked at {showVec x}"
     | "none" =>
